@@ -1,3 +1,214 @@
-import NxModel.Bytes
-/-! driver stub for C20 (replaced when the property's model lands) -/
-def main : IO Unit := IO.println "stub C20"
+import NxModel.Api.Effects
+import NxModel.Api.Legacy
+import NxModel.DriverUtil
+/-! line-protocol driver for the C20 models (settings, setting effects, nnas / nasc / hpp request builders)
+
+  cfg <name> <hexline,hexline,…>                 -> ok                 (register the lines of a configuration file)
+  construct <name|->                             -> ok|err <E> ; <dump>  (Settings() / Settings(name))
+  setseq <name|-> <keyhex>=<pyval> …             -> <ok|err E>,… ; <dump>  (construct, then the assignments in order)
+  copytest <keyhex>=<pyval>                      -> <dump original after> ; <dump copy after> ; <dump original2> ; <dump copy2>
+  observe <name|-> <keyhex>=<pyval> …            -> the observations of the consumers (`;`-separated name=value)
+  nnas <setter> … -- login <s:user> <s:pw> <s:type|none>  |  token <s:tok> <n:id>     -> <urlhex>|<requesthex>
+  nasc <s:bssid> <setter> … -- login <n:id> <s:nick> <s:devtime>                       -> ok <urlhex>|<requesthex> | err <E> [<index of failing setter>]
+  hpp <n:id> <s:env|none>                        -> <hosthex>
+  pyval: i<int> s<hex> T F N ;  setter: name(arg;arg;…) with args n:<dec> s:<hex> b:<hex> none
+-/
+open Nx Nx.Http Nx.Api
+
+def strOfBytes (b : Bytes) : Option String := String.fromUTF8? (ByteArray.mk b.toArray)
+def strOfHex (h : String) : Option String := (fromHex h).bind strOfBytes
+def hexOfStr (s : String) : String := hexOut s.toUTF8.toList
+def hexOfChars (c : List Char) : String := hexOfStr (String.ofList c)
+
+def parsePyVal (t : String) : Option PyVal :=
+  if t = "T" then some (.bool true) else if t = "F" then some (.bool false) else if t = "N" then some .none
+  else match t.toList with
+    | 'i' :: r => (String.ofList r).toInt?.map .int
+    | 's' :: r => (strOfHex (String.ofList r)).map fun s => .str s.toList
+    | _ => none
+
+def showVal : Val → String
+  | .int i => s!"int:{i}"
+  | .str s => "str:" ++ hexOfChars s
+  | .rat n d => s!"float:{n}/{d}"
+
+def dump (s : Settings) : String :=
+  ",".intercalate (Key.all.map fun k => match s k with | some v => showVal v | none => "unset")
+
+structure St where
+  cfgs : List (String × List (List Char)) := []
+
+def St.cfg (st : St) (name : String) : Option (List (List Char)) := (st.cfgs.find? (·.1 == name)).map (·.2)
+
+def construct (st : St) (name : String) : Option (Settings × Option Err) := do
+  let d ← st.cfg "default"
+  if name = "-" then pure (Settings.construct d none)
+  else
+    let n ← st.cfg name
+    pure (Settings.construct d (some n))
+
+def parseAssign (t : String) : Option (List Char × PyVal) :=
+  match t.splitOn "=" with
+  | [k, v] => do let k ← strOfHex k; let v ← parsePyVal v; pure (k.toList, v)
+  | _ => none
+
+def applySeq (s : Settings) (ops : List (List Char × PyVal)) : Settings × List String :=
+  ops.foldl (fun (acc : Settings × List String) (k, v) =>
+    match acc.1.setitem k v with
+    | .ok s' => (s', acc.2 ++ ["ok"])
+    | .error e => (acc.1, acc.2 ++ ["err " ++ e.name])) (s, [])
+
+def showRat (r : Int × Nat) : String := s!"{r.1}/{r.2}"
+
+def showObs (o : Obs) : String :=
+  ";".intercalate [
+    s!"fragment_size={o.fragmentSize}", "resend_timeout=" ++ showRat o.resendTimeout, s!"resend_limit={o.resendLimit}",
+    "ping_timeout=" ++ showRat o.pingTimeout, s!"max_substream_id={o.maxSubstreamId}", s!"supported_functions={o.supportedFunctions}",
+    s!"minor_ver={o.minorVer}", s!"v0_signature={o.v0Signature}", s!"v0_checksum={o.v0Checksum}", s!"v0_flags={o.v0Flags}",
+    "access_key=" ++ hexOfChars o.accessKey, s!"reliable_ciphers={o.reliableCiphers}", "compression=" ++ o.compression,
+    "cipher=" ++ o.cipher, "selected=" ++ o.selected, "analyze_v1=" ++ o.analyzeV1Magic, "analyze_other=" ++ o.analyzeOther,
+    s!"counters={o.counters}", s!"random_unreliable_id={o.randomUnreliableId}", s!"pid_bytes={o.pidBytes}",
+    s!"struct_header={o.structHeader}", "auth_proto=" ++ o.authProto, "login_path=" ++ o.loginPath, s!"rv_max_version={o.rvMaxVersion}",
+    "key_derivation=" ++ o.keyDerivation, s!"param_nex_version={o.paramNexVersion}", s!"param_client_version={o.paramClientVersion}",
+    s!"client_ticket_32_ok={o.clientTicket32Ok}",
+    "server_ticket_len=" ++ (match o.serverTicketLen with | some n => toString n | none => "ValueError")]
+
+/-! setters of nnas / nasc -/
+
+inductive A where
+  | n (v : Nat) | s (v : String) | b (v : Bytes) | none
+
+def parseA (t : String) : Option A :=
+  if t = "none" then some .none else
+  match t.splitOn ":" with
+  | ["n", v] => v.toNat?.map .n
+  | ["s", v] => (strOfHex v).map .s
+  | ["b", v] => (fromHex v).map .b
+  | _ => Option.none
+
+def parseSetter (t : String) : Option (String × List A) :=
+  match t.splitOn "(" with
+  | [name, rest] =>
+    let inner := String.ofList (rest.toList.takeWhile (· ≠ ')'))
+    let toks := if inner = "" then [] else inner.splitOn ";"
+    (toks.mapM parseA).map fun a => (name, a)
+  | _ => none
+
+def optS : A → Option (Option String)
+  | .none => some Option.none
+  | .s v => some (some v)
+  | _ => Option.none
+
+def nnasSetter : String × List A → Option NnasSet
+  | ("set_url", [.s u]) => some (.url u)
+  | ("set_client_id", [.s c]) => some (.clientId c)
+  | ("set_client_secret", [.s c]) => some (.clientSecret c)
+  | ("set_platform_id", [.n c]) => some (.platformId c)
+  | ("set_device_type", [.n c]) => some (.deviceType c)
+  | ("set_device", [.n id, .s serial, .n sv, cert]) => (optS cert).map fun c => .device id serial sv c
+  | ("set_locale", [.n r, .s c, .s l]) => some (.locale r c l)
+  | ("set_fpd_version", [.n v]) => some (.fpdVersion v)
+  | ("set_environment", [.s e]) => some (.environment e)
+  | ("set_title", [.n id, .n v]) => some (.title id v)
+  | _ => Option.none
+
+def nascSetter : String × List A → Option NascSet
+  | ("set_url", [.s u]) => some (.url u)
+  | ("set_sdk_version", [.n a, .n b]) => some (.sdkVersion a b)
+  | ("set_title", [.n id, .n v, .s pc, .s mc, .n mt, rom]) => (optS rom).map fun r => .title id v pc mc mt r
+  | ("set_device", [.s serial, .s mac, .b cert, .s name, .s unit]) => some (.device serial mac cert name unit)
+  | ("set_network", [.s b, .s a]) => some (.network b a)
+  | ("set_locale", [.n r, .n l]) => some (.locale r l)
+  | ("set_user", [.n p, .s h]) => some (.user p h)
+  | ("set_password", [.s p]) => some (.password p)
+  | ("set_fpd_version", [.n v]) => some (.fpdVersion v)
+  | ("set_environment", [.s e]) => some (.environment e)
+  | _ => Option.none
+
+def showSent (p : String × Req) : String := hexOfStr p.1 ++ "|" ++ hexOfStr p.2.encode
+
+def splitAtDashes (l : List String) : List String × List String :=
+  (l.takeWhile (· ≠ "--"), (l.dropWhile (· ≠ "--")).drop 1)
+
+def runNnas (toks : List String) : Option String := do
+  let (sets, call) := splitAtDashes toks
+  let sets ← sets.mapM fun t => (parseSetter t).bind nnasSetter
+  let s := sets.foldl Nnas.apply {}
+  match call with
+  | ["login", u, p, t] =>
+    match parseA u, parseA p, (parseA t).bind optS with
+    | some (.s u), some (.s p), some t => some (showSent (s.login u p t))
+    | _, _, _ => Option.none
+  | ["token", t, g] =>
+    match parseA t, parseA g with
+    | some (.s t), some (.n g) => some (showSent (s.getNexToken t g))
+    | _, _ => Option.none
+  | _ => Option.none
+
+def runNasc (toks : List String) : Option String := do
+  match toks with
+  | bss :: rest =>
+    let bss ← match parseA bss with | some (.s b) => some b | _ => Option.none
+    let (sets, call) := splitAtDashes rest
+    let sets ← sets.mapM fun t => (parseSetter t).bind nascSetter
+    let init : Nasc := { bssId := bss }
+    let r := sets.foldl (fun (acc : Except (Err × Nat) Nasc × Nat) st =>
+      match acc.1 with
+      | .error e => (.error e, acc.2 + 1)
+      | .ok s => match s.apply st with
+        | .ok s' => (.ok s', acc.2 + 1)
+        | .error e => (.error (e, acc.2), acc.2 + 1)) (.ok init, 0)
+    match r.1 with
+    | .error (e, i) => some s!"err {e.name} {i}"
+    | .ok s =>
+      match call with
+      | ["login", g, n, d] =>
+        match parseA g, parseA n, parseA d with
+        | some (.n g), some (.s n), some (.s d) =>
+          match s.login g n d with
+          | .ok p => some ("ok " ++ showSent p)
+          | .error e => some ("err " ++ e.name)
+        | _, _, _ => Option.none
+      | _ => Option.none
+  | [] => Option.none
+
+def step (st : St) (line : String) : St × String :=
+  match words line with
+  | ["cfg", name, ls] =>
+    match ((if ls = "-" then [] else ls.splitOn ",").mapM fun h => strOfHex h) with
+    | some lines => ({ st with cfgs := (name, lines.map String.toList) :: st.cfgs.filter (·.1 ≠ name) }, "ok")
+    | none => (st, "bad-op")
+  | ["construct", name] =>
+    match construct st name with
+    | some (s, none) => (st, "ok ; " ++ dump s)
+    | some (s, some e) => (st, "err " ++ e.name ++ " ; " ++ dump s)
+    | none => (st, "bad-op")
+  | "setseq" :: name :: ops =>
+    match construct st name, ops.mapM parseAssign with
+    | some (s, none), some ops =>
+      let (s', outs) := applySeq s ops
+      (st, ",".intercalate outs ++ " ; " ++ dump s')
+    | _, _ => (st, "bad-op")
+  | ["copytest", op] =>
+    match construct st "-", parseAssign op with
+    | some (s, none), some (k, v) =>
+      -- original r0, copy r1; assign on the copy, then (separately) on the original
+      let (h, r0) := Heap.new [] s
+      let (h, r1) := h.copy r0
+      let h1 := match h.setitem r1 k v with | .ok h' => h' | .error _ => h
+      let h2 := match h.setitem r0 k v with | .ok h' => h' | .error _ => h
+      (st, dump (h1.get r0) ++ " ; " ++ dump (h1.get r1) ++ " ; " ++ dump (h2.get r0) ++ " ; " ++ dump (h2.get r1))
+    | _, _ => (st, "bad-op")
+  | "observe" :: name :: ops =>
+    match construct st name, ops.mapM parseAssign with
+    | some (s, none), some ops => (st, showObs (observe (applySeq s ops).1))
+    | _, _ => (st, "bad-op")
+  | "nnas" :: toks => (st, (runNnas toks).getD "bad-op")
+  | "nasc" :: toks => (st, (runNasc toks).getD "bad-op")
+  | ["hpp", g, e] =>
+    match parseA g, (parseA e).bind optS with
+    | some (.n g), some e => (st, hexOfStr (Hpp.host { gameServerId := g, environment := e.getD "L1" }))
+    | _, _ => (st, "bad-op")
+  | _ => (st, "bad-op")
+
+def main : IO Unit := runState ({} : St) step
